@@ -80,6 +80,8 @@ func verifC20NativeSchedule() {
 	tool := filepath.Join(tmp, "tool.sh")
 	script := "#!/bin/sh\ncat >/dev/null\nm=" + state + "/alive.$$\n: > $m\nls " + state + " | grep -c '^alive' >> " + state + "/counts\nsleep 0.3\nrm -f $m\necho x >> " + state + "/finished\necho '[]'\n"
 	must(os.WriteFile(tool, []byte(script), 0o755))
+	pytool := filepath.Join(tmp, "pytool.sh")
+	must(os.WriteFile(pytool, []byte(strings.Replace(script, "echo '[]'\n", "", 1)), 0o755))
 	cpus := runtime.NumCPU()
 	var args []string
 	for f := 0; f < 3; f++ {
@@ -87,7 +89,7 @@ func verifC20NativeSchedule() {
 		must(os.WriteFile(p, []byte(verifC20SchedWorkflow(cpus)), 0o644))
 		args = append(args, p)
 	}
-	l, err := NewLinter(io.Discard, &LinterOptions{Shellcheck: tool})
+	l, err := NewLinter(io.Discard, &LinterOptions{Shellcheck: tool, Pyflakes: pytool})
 	must(err)
 	type res struct {
 		errs []*Error
